@@ -145,6 +145,11 @@ class FnSM(P.Fn):
         self.uses_rows = False
         self.used_opaque = []
         self.uses_field_of = False
+        self.uses_iter_self = False
+        self.uses_empty = False
+        self.used_obj_iters = []
+        self.used_rec_methods = []
+        self.used_setters = []
         self.used_attrs = []     # (record type, attribute, type) of opaque objects' attributes read
         self.used_cols = []      # (column, row type, column type) of structured-array columns read
         self.is_method = False
@@ -195,6 +200,8 @@ class FnSM(P.Fn):
                     for x in (t.elts if isinstance(t, ast.Tuple) else [t]):
                         while isinstance(x, ast.Subscript):
                             x = x.value
+                        if isinstance(x, ast.Attribute) and isinstance(x.value, ast.Name) and x.value.id != "self":
+                            add(x.value.id)         # obj.attr = v rebinds the local object
                         add(self.key_of(x))
                 if isinstance(n, ast.Call):
                     fn = dotted(n.func)
@@ -210,6 +217,8 @@ class FnSM(P.Fn):
                     if var is not None:
                         for st_ in var.get("hidden", []):
                             add(st_)
+                if isinstance(n, ast.For) and self.is_obj_iter(n.iter) is not None:
+                    add(self.is_obj_iter(n.iter)[1])
                 if isinstance(n, (ast.Yield, ast.YieldFrom)):
                     add("out'")
         if env is not None:      # order of definition in the function (stable under renaming of locals)
@@ -423,7 +432,21 @@ class FnSM(P.Fn):
     def str_code(self, v):
         return v.code if v.code is not None else _strlit(v.static)
 
+    def unwrap_opt(self, v):
+        """an Optional value used in arithmetic: TypeError when it is None"""
+        if v.ty.kind != "opt":
+            return v
+        t = self.fresh("t")
+        self.pending.append((t, f"(PySM.getOpt {v.code})"))
+        return Val(t, v.ty.item)
+
     def e_BinOp(self, e, env):
+        if isinstance(e.op, (ast.Div, ast.Mult, ast.Sub)) or (isinstance(e.op, ast.Add)):
+            n0 = len(self.pending)
+            a0, b0 = self.expr(e.left, env), self.expr(e.right, env)
+            if "opt" in (a0.ty.kind, b0.ty.kind):
+                return self.lifted(e.op, self.unwrap_opt(a0), self.unwrap_opt(b0), e)
+            del self.pending[n0:]
         if isinstance(e.op, ast.Add):
             a, b = self.expr(e.left, env), self.expr(e.right, env)
             if a.ty.kind == "str" and b.ty.kind == "str":
@@ -690,6 +713,42 @@ class FnSM(P.Fn):
             if v.ty.kind == "list":
                 return v            # a fresh copy: the identity under value semantics
             self.bad(e, f"{fn} of {v.ty}")
+        if fn == "str" and len(args) == 1 and not kw:
+            n0 = len(self.pending)
+            v = self.expr(args[0], env)
+            ra = self.spec.get("rec_attrs", {})
+            if v.ty.kind == "rec" and "__str__" in ra.get(v.ty.item, {}):
+                ent = (v.ty.item, "__str__", ra[v.ty.item]["__str__"])
+                if ent not in self.used_attrs:
+                    self.used_attrs.append(ent)
+                return Val(f"({v.ty.item}___str__ {v.code})", ra[v.ty.item]["__str__"])
+            del self.pending[n0:]
+        if fn == "time.time" and not args and not kw:
+            return Val("<time.time()>", UNUSED)         # a clock reading: may be stored, any use stops the translation
+        if np_("empty") and len(args) == 1 and not kw and "empty_as" in self.spec:
+            # uninitialised memory: an arbitrary value, the hidden parameter `empty'`
+            self.uses_empty = True
+            return Val("empty'", self.spec["empty_as"])
+        if isinstance(e.func, ast.Attribute) and not kw:
+            rm = self.spec.get("rec_methods", {})
+            if any(e.func.attr in d for d in rm.values()):
+                n0 = len(self.pending)
+                recv = self.expr(e.func.value, env)
+                if recv.ty.kind == "rec" and e.func.attr in rm.get(recv.ty.item, {}):
+                    o = rm[recv.ty.item][e.func.attr]
+                    ent = (recv.ty.item, e.func.attr)
+                    if ent not in self.used_rec_methods:
+                        self.used_rec_methods.append(ent)
+                    vs = [self.expr(a, env) for a in args]
+                    if len(vs) != len(o["args"]):
+                        self.bad(e, f"method {e.func.attr}: arguments differ from the declaration")
+                    code = f"({recv.ty.item}_{e.func.attr} " + " ".join([recv.code] + [self.coerce_sm(v, t, e) for v, t in zip(vs, o["args"])]) + ")"
+                    if o.get("raises"):
+                        t = self.fresh("t")
+                        self.pending.append((t, code))
+                        return Val(t, o["ret"])
+                    return Val(code, o["ret"])
+                del self.pending[n0:]
         if fn == "len" and len(args) == 1 and not kw:
             v = self.expr(args[0], env)
             if v.ty.kind == "str":
@@ -902,7 +961,11 @@ class FnSM(P.Fn):
             env2 = dict(env)
             env2[key] = Val(self.lname(key), v.ty)
             return pre + f"{pad}let {self.lname(key)} : List (String × PySM.Cmp) := {v.code};\n" + go(env2)
-        if v.ty.kind in ("tzinfo", "tzstr", "monthrange", "utc", "unused"):
+        if v.ty.kind == "unused":
+            env2 = dict(env)
+            env2[key] = v
+            return pre + go(env2)
+        if v.ty.kind in ("tzinfo", "tzstr", "monthrange", "utc"):
             self.bad(node, f"variable of helper type {v.ty}")
         env2 = dict(env)
         env2[key] = Val(self.lname(key), v.ty, lit=v.lit)
@@ -950,6 +1013,9 @@ class FnSM(P.Fn):
                 self.bad(s, f"return of a {v.ty} constant")
             key = self.key_of(s.value)
             rt = v.ty.with_elem(False)
+            if self.ret_ty is not None and self.ret_ty.kind == "opt" and self.ret_ty.item == rt:
+                v = Val(f"(some {v.code})", self.ret_ty)       # the other path returned the Optional field itself
+                rt = self.ret_ty
             self.ret_check(rt, s)
             if key in self.extras and len(self.spec.get("inout", [])) == 1 and key in self.spec.get("inout", []):
                 # the function returns the array it updated in place: one component, not two
@@ -999,6 +1065,17 @@ class FnSM(P.Fn):
                     env2[x.id] = Val(mangle(x.id), v.ty.item[i])
                     out += f"{pad}let {mangle(x.id)} := {proj};\n"
                 return pre + out + self.blk(rest, env2, k, ind, ctx)
+            if isinstance(t, ast.Attribute) and isinstance(t.value, ast.Name) and t.value.id in env \
+                    and env[t.value.id].ty.kind == "rec" \
+                    and t.attr in self.spec.get("rec_setters", {}).get(env[t.value.id].ty.item, {}):
+                # obj.attr = v on a local opaque object: the object with that attribute replaced (opaque setter)
+                obj = env[t.value.id]
+                at = self.spec["rec_setters"][obj.ty.item][t.attr]
+                ent = (obj.ty.item, t.attr, at)
+                if ent not in self.used_setters:
+                    self.used_setters.append(ent)
+                return self.rebind(t.value.id, Val(f"({obj.ty.item}_set_{t.attr} {obj.code} {self.coerce_sm(v, at, s)})", obj.ty),
+                                   env, go, pad, s)
             if isinstance(t, ast.Tuple) and all(isinstance(x, ast.Name) for x in t.elts) and v.ty.kind == "list" \
                     and v.ty.item is not None and len(t.elts) in (3, 4):
                 # a, b, c = <list>: ValueError unless the lengths agree
@@ -1323,7 +1400,56 @@ class FnSM(P.Fn):
             self.bad(s, "loop with an else clause")
         is_for = isinstance(s, ast.For)
         pre = ""
-        if is_for:
+        if is_for and self.is_self_iter(s.iter) is not None:
+            # `for … in self` / `enumerate(self)`: one pass over the object (an opaque parameter `iter_self`): the list of
+            # the items it yields and the state record after the pass. The body runs after the pass here; it may read only
+            # the fields the pass keeps (TARGETS.iter_self.keeps) and assign none.
+            ispec = self.spec.get("iter_self")
+            if ispec is None or not self.is_method:
+                self.bad(s, "iteration over self, but TARGETS.iter_self is not declared")
+            body_assigned = [k_ for k_ in self.assigned_sm(list(s.body)) if (k_ or "").startswith("self.")]
+            if body_assigned:
+                self.bad(s, f"the body of a loop over self assigns {body_assigned}")
+            for n_ in [n_ for st_ in s.body for n_ in ast.walk(st_)]:
+                k_ = self.key_of(n_) if isinstance(n_, ast.Attribute) else None
+                if k_ and k_.startswith("self.") and k_[5:] in self.self_fields and k_[5:] not in ispec["keeps"]:
+                    self.bad(n_, f"the body of a loop over self reads {k_}, which the pass may change")
+            fs = ["self." + f for f in self.self_fields]
+            ftys = {"self." + f: t for f, (lf, t) in self.self_fields.items()}
+            pk = self.fresh("p")
+            pre = self.pre(pad) + f"{pad}Except.bind (iter_self {self.pack(fs, ftys, env, s)}) fun {pk} =>\n"
+            self.uses_iter_self = True
+            env = dict(env)
+            nfs = len(fs)
+            for i_, f in enumerate(fs):
+                if f[5:] in ispec["keeps"]:
+                    continue
+                proj = f"{pk}.2" if nfs == 1 else f"{pk}.2" + "".join([".2"] * i_) + (".1" if i_ < nfs - 1 else "")
+                pre += f"{pad}let {self.lname(f)} := {proj};\n"
+                env[f] = Val(self.lname(f), ftys[f])
+            self.pass_touched = True
+            items = Val(f"{pk}.1", LIST(ispec["item"]))
+            it = items if self.is_self_iter(s.iter) == "plain" else \
+                Val(f"(PySM.enumerate {pk}.1)", LIST(TUPLE(NAT, ispec["item"])))
+        elif is_for and self.is_obj_iter(s.iter) is not None:
+            # `for … in obj` / `enumerate(obj)` for an opaque object parameter declared in TARGETS.iter_objs: one pass, the
+            # opaque parameter `iter_<obj>`: (items, the object after the pass); the body may not mention the object
+            mode, oname = self.is_obj_iter(s.iter)
+            ospec = self.spec["iter_objs"][oname]
+            if oname not in env or env[oname].ty.kind != "rec":
+                self.bad(s, f"iteration over {oname}, which is not an opaque object here")
+            if any(isinstance(n_, ast.Name) and n_.id == oname for st_ in s.body for n_ in ast.walk(st_)):
+                self.bad(s, f"the body of a loop over {oname} mentions {oname}")
+            pk = self.fresh("p")
+            pre = self.pre(pad) + f"{pad}Except.bind (iter_{oname} {env[oname].code}) fun {pk} =>\n" \
+                                  f"{pad}let {mangle(oname)} := {pk}.2;\n"
+            if (oname, env[oname].ty.item, ospec["item"]) not in self.used_obj_iters:
+                self.used_obj_iters.append((oname, env[oname].ty.item, ospec["item"]))
+            env = dict(env)
+            env[oname] = Val(mangle(oname), env[oname].ty)
+            it = Val(f"{pk}.1", LIST(ospec["item"])) if mode == "plain" else \
+                Val(f"(PySM.enumerate {pk}.1)", LIST(TUPLE(NAT, ospec["item"])))
+        elif is_for:
             it = self.expr(s.iter, env)
             pre = self.pre(pad)
             if it.ty.kind != "list" or it.ty.item is None:
@@ -1376,6 +1502,24 @@ class FnSM(P.Fn):
         out = self.fresh("s")
         lets_o, env2 = self.unpack(names, tys, out, env, pad)
         return pre + f"{pad}Except.bind {loop} fun {out} =>\n{lets_o}" + self.blk(rest, env2, k, ind, ctx)
+
+    @staticmethod
+    def is_self_iter(node):
+        if isinstance(node, ast.Name) and node.id == "self":
+            return "plain"
+        if isinstance(node, ast.Call) and dotted(node.func) == "enumerate" and len(node.args) == 1 and not node.keywords \
+                and isinstance(node.args[0], ast.Name) and node.args[0].id == "self":
+            return "enumerate"
+        return None
+
+    def is_obj_iter(self, node):
+        objs = self.spec.get("iter_objs", {})
+        if isinstance(node, ast.Name) and node.id in objs:
+            return "plain", node.id
+        if isinstance(node, ast.Call) and dotted(node.func) == "enumerate" and len(node.args) == 1 and not node.keywords \
+                and isinstance(node.args[0], ast.Name) and node.args[0].id in objs:
+            return "enumerate", node.args[0].id
+        return None
 
     def destructure(self, target, v, env, pad, node):
         """`a, (b, c)` pattern of a for target bound to the tuple value `v`: lets, env updated in place"""
@@ -1466,12 +1610,17 @@ class FnSM(P.Fn):
                 return "  " + self.final(None, env_end, node)
             self.bad(node, "control reaches the end of the function without return")
         # extras that are known only after the body (self, rng) are appended by `final` through self.extras: fix the list first
-        self.self_assigned = is_method and any(
-            (k_ or "").startswith("self.") for k_ in self.assigned_sm(list(node.body)))
+        self.self_assigned = is_method and (any(
+            (k_ or "").startswith("self.") for k_ in self.assigned_sm(list(node.body))) or any(
+            isinstance(n_, ast.For) and self.is_self_iter(n_.iter) is not None for n_ in ast.walk(node)))
         if self.self_assigned:
             self.extras.append("self''")
         for st_ in self.declared_streams:
             self.extras.append(st_)
+        for on_ in spec.get("iter_objs", {}):
+            # an object parameter the function iterates over is changed by the pass: its final state is part of the result
+            if any(isinstance(n_, ast.For) and (self.is_obj_iter(n_.iter) or (None, None))[1] == on_ for n_ in ast.walk(node)):
+                self.extras.append(on_)
         body_stmts = list(node.body)
         live_params = []
         if spec.get("body_from") == "for":
@@ -1521,7 +1670,9 @@ class FnSM(P.Fn):
             for r in _recs(t):
                 if r not in recs:
                     recs.append(r)
-        for r in (_recs(spec["field_of"]) if self.uses_field_of else []) + (_recs(self.yield_ty) if self.yield_ty else []) + (_recs(spec["csv_rows"]) if self.uses_rows else []):
+        for r in [r_ for (_, _, it_) in self.used_obj_iters for r_ in _recs(it_)] + \
+                [r_ for (r0, a_, t_) in self.used_attrs for r_ in [r0] + _recs(t_)] + \
+                (_recs(spec["iter_self"]["item"]) if self.uses_iter_self else []) + (_recs(spec["field_of"]) if self.uses_field_of else []) + (_recs(self.yield_ty) if self.yield_ty else []) + (_recs(spec["csv_rows"]) if self.uses_rows else []):
             if r not in recs:
                 recs.append(r)
         seen, opq_params = set(), []
@@ -1532,11 +1683,22 @@ class FnSM(P.Fn):
         if self.uses_seed:
             opq_params += [f"({fnm} : Int → {lty(self.STREAMS[st_])})"
                            for st_, fnm in (("rng'", "seed_rng"), ("pois'", "seed_pois")) if st_ in self.declared_streams]
-        hidden = [f"({f} : Nat)" for f in self.fuels] + \
+        hidden = ([f"(empty' : {lty(spec['empty_as'])})"] if self.uses_empty else []) + [f"({f} : Nat)" for f in self.fuels] + \
                  [f"({st_} : {lty(self.STREAMS[st_])})" for st_ in self.declared_streams] + \
                  ([f"(rows' : {lty(spec['csv_rows'])})"] if self.uses_rows else [])
         if is_method:
             hidden.append("(self' : " + " × ".join(P._paren(lty(t)) for f, (lf, t) in self.self_fields.items()) + ")")
+        for (r_, m_) in self.used_rec_methods:
+            o = spec["rec_methods"][r_][m_]
+            ins = [r_] + [P._paren(lty(t)) for t in o["args"]]
+            opq_params.append(f"({r_}_{m_} : " + " → ".join(ins + [f"PySM.M {P._paren(lty(o['ret']))}" if o.get("raises") else lty(o["ret"])]) + ")")
+        for (r_, a_, t_) in self.used_setters:
+            opq_params.append(f"({r_}_set_{a_} : {r_} → {lty(t_)} → {r_})")
+        for (on_, ot_, it_) in self.used_obj_iters:
+            opq_params.append(f"(iter_{on_} : {ot_} → PySM.M ((List {P._paren(lty(it_))}) × {ot_}))")
+        if self.uses_iter_self:
+            sty = " × ".join(P._paren(lty(t)) for f, (lf, t) in self.self_fields.items())
+            opq_params.append(f"(iter_self : {P._paren(sty)} → PySM.M ((List {P._paren(lty(spec['iter_self']['item']))}) × {P._paren(sty)}))")
         if self.uses_field_of:
             opq_params.append(f"(field_of : String → Option ({lty(spec['field_of'])} → Rat))")
         aorder = [(r_, a_) for r_, d_ in spec.get("rec_attrs", {}).items() for a_ in d_]
@@ -1731,6 +1893,40 @@ TARGETS = [
                      normalize_likelihood=UNUSED),
          body_from="for", keep_before=["seed is not None"], live_in=_BLT_LIVE, callees=_BLT_CALLEES, opaque=_BLT_OPAQUE,
          rec_attrs={"Masked": {"data": LIST(REAL)}}),
+    # C13: `get_expected_rates`. Specialisation: the forecast is bound to a region; `for i, cat in enumerate(self)` is ONE
+    # pass over the forecast given by the opaque parameter `iter_self` (the catalogs it yields and the state record after
+    # it; the loop body runs on them after the pass and may read only `self.region`); `cat.region = …` and
+    # `cat.spatial_magnitude_counts()` are an opaque setter / raising method of the yielded object (counts as a flat list);
+    # `numpy.empty([])` is the arbitrary value `empty'` (with NO catalog the code divides uninitialised memory: the tie
+    # theorem is for ≥ 1 catalog); `GriddedForecast(…)` an opaque constructor; the fields of the object that the method
+    # does not name travel in the opaque field `rest`.
+    dict(file="csep/core/forecasts.py", func="CatalogForecast.get_expected_rates", lean="get_expected_rates", prop="C13",
+         also=[], module="C13R", params=dict(verbose={"static": False}), empty_as=LIST(NAT),
+         self_fields={"region": ("region", REC("Region")), "expected_rates": ("expected_rates", OPT(REC("GF"))),
+                      "n_cat": ("n_cat", OPT(INT)), "start_time": ("start_time", REC("T")), "end_time": ("end_time", REC("T")),
+                      "name": ("name", REC("Name")), "__rest__": ("rest", REC("Rest"))},
+         iter_self=dict(item=REC("Cat"), keeps=["region"]),
+         rec_attrs={"Region": {"magnitudes": OPT(LIST(F64))}},
+         rec_setters={"Cat": {"region": REC("Region")}},
+         rec_methods={"Cat": {"spatial_magnitude_counts": dict(args=[], ret=LIST(NAT), raises=True)}},
+         opaque={"GriddedForecast": dict(lean="mkGF", args=[REC("T"), REC("T")], ret=REC("GF"),
+                                         kwparams={"data": LIST(F64), "region": REC("Region"),
+                                                   "magnitudes": OPT(LIST(F64)), "name": REC("Name")})}),
+    # C10: `catalog_evaluations.number_test` (verbose=False): `for i, catalog in enumerate(forecast)` is one pass over the
+    # forecast (opaque `iter_forecast`); `get_quantiles` (tied by py2lean) and the result constructor are opaque parameters;
+    # attributes of the forecast / observed catalog are opaque projections.
+    dict(file="csep/core/catalog_evaluations.py", func="number_test", lean="catalog_number_test", prop="C10", also=[],
+         module="C10L", label="catalog_evaluations.number_test[pass + loop, verbose=False]", params=dict(forecast=REC("Forecast"), observed_catalog=REC("Obs"), verbose={"static": False}),
+         locals=dict(event_counts=LIST(NAT)), iter_objs={"forecast": dict(item=REC("Cat"))},
+         rec_attrs={"Cat": {"event_count": NAT},
+                    "Obs": {"event_count": NAT, "name": REC("ObsName"), "__str__": REC("ObsRepr")},
+                    "Forecast": {"name": REC("FName"), "min_magnitude": REC("MinMw")}},
+         opaque={"get_quantiles": dict(lean="get_quantiles", args=[LIST(NAT), NAT], ret=TUPLE(REC("Qv"), REC("Qv"))),
+                 "CatalogNumberTestResult": dict(
+                     lean="mkResult", args=[], ret=REC("Result"),
+                     kwparams={"test_distribution": LIST(NAT), "name": STR, "observed_statistic": NAT,
+                               "quantile": TUPLE(REC("Qv"), REC("Qv")), "status": STR, "obs_catalog_repr": REC("ObsRepr"),
+                               "sim_name": REC("FName"), "min_mw": REC("MinMw"), "obs_name": REC("ObsName")})}),
     # C12: the decoder state machine of the catalog-forecast loader (a generator): `prev_id` / `events` / placeholder rows,
     # one catalog per id. Specialisation: `filename` is a regular file; the rows `csv.reader` hands to the loop are the
     # parameter `rows'` (tokenisation and the field parsing of the nested helper `read_catalog_line` are separate layers:
